@@ -13,6 +13,14 @@ every operand are listed (same evaluation order of the operands, same laziness):
 
 `map`, `pow`, `dict`, `zip`, `filter` are only rewritten where the module does not rebind those names.
 Positions are copied from the rewritten call, so reports keep pointing at the source line.
+
+Statement forms that the summariser does not model directly are expressed by the ones it does:
+
+  try: B finally: F           -> try: B except BaseException: F; raise   followed by F
+                                 (a `return v` inside B becomes `t = v; F; return t`)
+  for/while ... else: E       -> the loop, then E (guarded by a flag that the loop's `break`s set)
+  match s: case P: B ...      -> t = s; if <test of P on t>: B elif ...      for value / singleton / or / class /
+                                 capture / wildcard patterns (other patterns are left alone)
 """
 import ast
 import itertools
@@ -98,6 +106,165 @@ class _Desugar(ast.NodeTransformer):
         return new
 
 
+class _Scoped(ast.NodeTransformer):
+    """Statement rewrites; nested function / class bodies are rewritten on their own."""
+
+    def __init__(self):
+        self.n = itertools.count()
+
+    def fresh(self, tag):
+        return f"_ds_{tag}{next(self.n)}"
+
+    # ---- helpers -------------------------------------------------------------------------------
+    @staticmethod
+    def _own_nodes(stmts, stop_at_loops=False):
+        """Nodes of the statements, not entering nested definitions (and, optionally, nested loops)."""
+        todo = list(stmts)
+        while todo:
+            n = todo.pop()
+            yield n
+            for c in ast.iter_child_nodes(n):
+                if isinstance(c, (ast.FunctionDef, ast.AsyncFunctionDef, ast.Lambda, ast.ClassDef)):
+                    continue
+                if stop_at_loops and isinstance(c, (ast.For, ast.While, ast.AsyncFor)):
+                    continue
+                todo.append(c)
+
+    @staticmethod
+    def _assign(name, value, like):
+        st = ast.Assign(targets=[ast.Name(id=name, ctx=ast.Store())], value=value, type_comment=None)
+        ast.copy_location(st, like)
+        ast.fix_missing_locations(st)
+        return st
+
+    def _fix(self, new, like):
+        ast.copy_location(new, like)
+        ast.fix_missing_locations(new)
+        return new
+
+    # ---- try / finally -------------------------------------------------------------------------
+    def visit_Try(self, node):
+        self.generic_visit(node)
+        if not node.finalbody:
+            return node
+        import copy
+        fin = node.finalbody
+        inner_stmts = [node] if (node.handlers or node.orelse) else None
+        body = node.body
+        if inner_stmts is not None:
+            inner = ast.Try(body=node.body, handlers=node.handlers, orelse=node.orelse, finalbody=[])
+            body = [self._fix(inner, node)]
+        # jumps that leave the protected region run the finally block first
+        if any(isinstance(n, (ast.Break, ast.Continue)) for n in self._own_nodes(body, stop_at_loops=True)):
+            return node                 # left to the summariser (reported as unsupported)
+        outer = self
+
+        class Ret(ast.NodeTransformer):
+            def visit_FunctionDef(self, n):
+                return n
+            visit_AsyncFunctionDef = visit_Lambda = visit_ClassDef = visit_FunctionDef
+
+            def visit_Return(self, n):
+                tmp = outer.fresh("r")
+                val = n.value if n.value is not None else ast.Constant(value=None)
+                new_ret = ast.Return(value=ast.Name(id=tmp, ctx=ast.Load()))
+                outer._fix(new_ret, n)
+                return [outer._assign(tmp, val, n)] + [copy.deepcopy(s) for s in fin] + [new_ret]
+        body = [Ret().visit(b) for b in body]
+        flat = []
+        for b in body:
+            flat.extend(b if isinstance(b, list) else [b])
+        handler = ast.ExceptHandler(type=ast.Name(id="BaseException", ctx=ast.Load()), name=None,
+                                    body=[copy.deepcopy(s) for s in fin] + [ast.Raise(exc=None, cause=None)])
+        guarded = ast.Try(body=flat, handlers=[handler], orelse=[], finalbody=[])
+        self._fix(guarded, node)
+        return [guarded] + list(fin)
+
+    # ---- loop else -----------------------------------------------------------------------------
+    def _loop_else(self, node):
+        self.generic_visit(node)
+        if not node.orelse:
+            return node
+        orelse, node.orelse = node.orelse, []
+        breaks = [n for n in self._own_nodes(node.body, stop_at_loops=True) if isinstance(n, ast.Break)]
+        if not breaks:
+            return [node] + orelse
+        flag = self.fresh("b")
+        outer = self
+
+        class Brk(ast.NodeTransformer):
+            def visit_FunctionDef(self, n):
+                return n
+            visit_AsyncFunctionDef = visit_Lambda = visit_ClassDef = visit_For = visit_While = visit_FunctionDef
+
+            def visit_Break(self, n):
+                return [outer._assign(flag, ast.Constant(value=True), n), n]
+        node.body = [x for b in node.body for x in (lambda r: r if isinstance(r, list) else [r])(Brk().visit(b))]
+        test = ast.UnaryOp(op=ast.Not(), operand=ast.Name(id=flag, ctx=ast.Load()))
+        tail = ast.If(test=test, body=orelse, orelse=[])
+        self._fix(tail, orelse[0])
+        return [self._assign(flag, ast.Constant(value=False), node), node, tail]
+
+    visit_For = _loop_else
+    visit_While = _loop_else
+
+    # ---- match ---------------------------------------------------------------------------------
+    def _pattern(self, p, subj):
+        """(test expression or None for 'always', [binding statements]) or None if the pattern is not covered."""
+        load = lambda: ast.Name(id=subj, ctx=ast.Load())
+        if isinstance(p, ast.MatchValue):
+            return ast.Compare(left=load(), ops=[ast.Eq()], comparators=[p.value]), []
+        if isinstance(p, ast.MatchSingleton):
+            return ast.Compare(left=load(), ops=[ast.Is()], comparators=[ast.Constant(value=p.value)]), []
+        if isinstance(p, ast.MatchAs):
+            if p.pattern is None:
+                binds = [ast.Assign(targets=[ast.Name(id=p.name, ctx=ast.Store())], value=load(), type_comment=None)] \
+                    if p.name else []
+                return None, binds
+            sub = self._pattern(p.pattern, subj)
+            if sub is None:
+                return None
+            test, binds = sub
+            if p.name:
+                binds = binds + [ast.Assign(targets=[ast.Name(id=p.name, ctx=ast.Store())], value=load(), type_comment=None)]
+            return test, binds
+        if isinstance(p, ast.MatchOr):
+            tests = []
+            for alt in p.patterns:
+                sub = self._pattern(alt, subj)
+                if sub is None or sub[1]:
+                    return None
+                if sub[0] is None:
+                    return None, []
+                tests.append(sub[0])
+            return ast.BoolOp(op=ast.Or(), values=tests), []
+        if isinstance(p, ast.MatchClass) and not p.patterns and not p.kwd_patterns:
+            return ast.Call(func=ast.Name(id="isinstance", ctx=ast.Load()), args=[load(), p.cls], keywords=[]), []
+        return None
+
+    def visit_Match(self, node):
+        self.generic_visit(node)
+        subj = self.fresh("m")
+        arms = []
+        for case in node.cases:
+            got = self._pattern(case.pattern, subj)
+            if got is None:
+                return node
+            test, binds = got
+            if case.guard is not None:
+                if binds:
+                    return node         # the guard may use the captured names
+                test = case.guard if test is None else ast.BoolOp(op=ast.And(), values=[test, case.guard])
+            arms.append((test, binds + case.body))
+        out = None
+        for test, body in reversed(arms):
+            if test is None:
+                out = body
+            else:
+                out = [self._fix(ast.If(test=test, body=body, orelse=out or []), body[0])]
+        return [self._assign(subj, node.subject, node)] + (out or [])
+
+
 def desugar(tree):
     rebound = set()
     dotted = {}
@@ -117,4 +284,7 @@ def desugar(tree):
             for a in n.names:
                 dotted[a.asname or a.name] = f"{n.module}.{a.name}"
                 rebound.add(a.asname or a.name)
-    return _Desugar(rebound, dotted).visit(tree)
+    tree = _Desugar(rebound, dotted).visit(tree)
+    tree = _Scoped().visit(tree)
+    ast.fix_missing_locations(tree)
+    return tree
